@@ -1,6 +1,10 @@
 package drive
 
-import "strings"
+import (
+	"fmt"
+	"math"
+	"strings"
+)
 
 type c02op struct {
 	op, attr string
@@ -19,6 +23,10 @@ func c02Ops() []c02op {
 		return c02op{op: op, attr: attr, ins: ins, outs: outs, tensors: tensors, weights: weights}
 	}
 	var o []c02op
+	// recurrent operators that start from their default (all-zero) state and default bias
+	o = append(o, f("RNN", "hidden_size=2", "x,W,R", "y,yh", []string{"x:2,2,2", "W:1,2,2", "R:1,2,2"}, "W", "R"))
+	o = append(o, f("GRU", "hidden_size=2", "x,W,R", "y,yh", []string{"x:2,2,2", "W:1,6,2", "R:1,6,2"}, "W", "R"))
+	o = append(o, f("LSTM", "hidden_size=2", "x,W,R", "y,yh,yc", []string{"x:2,2,2", "W:1,8,2", "R:1,8,2"}, "W", "R"))
 	for _, op := range []string{"Add", "Sub", "Mul", "Div", "Equal", "Greater", "GreaterOrEqual", "Less", "LessOrEqual"} {
 		o = append(o, f(op, "", "x,w", "o", []string{"x:2,2", "w:2"}, "w"))
 		o = append(o, f(op, "", "w,x", "o", []string{"x:1,2", "w:2,1"}, "w"))
@@ -86,6 +94,13 @@ func c02Ops() []c02op {
 		o = append(o, f("ReduceMin", "axes=0,1;"+kd, "x", "o", []string{"x:2,3"}, "x"))
 	}
 	o = append(o, f("ReduceMax", "", "x", "o", []string{"x:2,2"}, "x"))
+	// rank 5 and 6 operands (beyond the usual small-rank fast paths)
+	o = append(o, f("ArgMax", "axis=3", "x", "o", []string{"x:1,2,1,2,2"}, "x"))
+	o = append(o, f("ArgMax", "axis=-1;keepdims=1", "x", "o", []string{"x:2,1,1,1,1,2"}, "x"))
+	o = append(o, f("ReduceMax", "axes=1,4;keepdims=1", "x", "o", []string{"x:1,2,1,1,2"}, "x"))
+	o = append(o, f("ReduceMin", "keepdims=1", "x", "o", []string{"x:1,2,1,2,1"}, "x"))
+	o = append(o, f("Transpose", "perm=4,3,2,1,0", "x", "o", []string{"x:1,2,1,2,2"}, "x"))
+	o = append(o, f("Add", "", "x,w", "o", []string{"x:2,1,2,1,1,2", "w:2"}, "w"))
 	o = append(o, f("Softmax", "axis=-1", "x", "o", []string{"x:1,3"}, "x"))
 	o = append(o, f("LogSoftmax", "axis=0", "x", "o", []string{"x:2,2"}, "x"))
 	o = append(o, f("Reshape", "", "x,s", "o", []string{"x:2,3", "s:2:i64=3,-1"}, "x", "s"))
@@ -142,6 +157,24 @@ func init() {
 var lazyTOps = map[string]bool{"Reshape": true, "Flatten": true, "Squeeze": true, "Unsqueeze": true, "Transpose": true, "Relu": true, "Abs": true,
 	"Add": true, "Mul": true, "MatMul": true, "Gemm": true, "Concat": true, "Slice": true, "Gather": true, "Expand": true, "ReduceMax": true, "ArgMax": true,
 	"Scaler": true, "LinearRegressor": true, "Shape": true, "Cast": true}
+
+// manyConstants: ten Constant nodes with tensor values (raw float32 pairs), added up with the input.
+func manyConstants() []gnode {
+	var g []gnode
+	prev := "x"
+	for i := 0; i < 10; i++ {
+		a, b := math.Float32bits(float32(i+1)), math.Float32bits(float32(2*i+1))
+		hex := fmt.Sprintf("%02x%02x%02x%02x%02x%02x%02x%02x", byte(a), byte(a>>8), byte(a>>16), byte(a>>24), byte(b), byte(b>>8), byte(b>>16), byte(b>>24))
+		c := "c" + itoa(i)
+		out := "s" + itoa(i)
+		if i == 9 {
+			out = "o"
+		}
+		g = append(g, gnode{"Constant", "", c, "value_raw=1:2:" + hex}, gnode{"Add", prev + "," + c, out, ""})
+		prev = out
+	}
+	return g
+}
 
 func c02Plan(o Options, prop, harness string) *Plan {
 	{
@@ -237,6 +270,7 @@ func c02Plan(o Options, prop, harness string) *Plan {
 			{{"Constant", "", "c", "value_raw=11:2:000000000000f03f0000000000000040"}, {"Cast", "c", "t", "to=1"}, {"Add", "x,t", "o", ""}},
 			{{"Constant", "", "c", "value_raw=1:2:0000404000008040"}, {"Mul", "x,c", "o", ""}},
 			{{"Constant", "", "c", "value_raw=7:2:ffffffffffffffff0000000000000000"}, {"Gather", "x,c", "o", "axis=1"}},
+			manyConstants(),
 		} {
 			inputs, inits := []string{"x:2,2"}, []string{"w:2,2", "b:2"}
 			outs := []string{"o"}
